@@ -130,8 +130,9 @@ def check_failure_table(rep: Report, prog: Program) -> None:
 # R3.2 _finalize_attempt
 # ---------------------------------------------------------------------------
 
-def check_finalize(rep: Report, prog: Program) -> None:
-    rep.rule("R3.2", "_finalize_attempt table: raise-decision -> RAISE; DEFER -> SCHEDULED; ABORT -> ABORTED; else deadline / global cap -> RAISE with that reason; else RETRY")
+def check_finalize(rep: Report, prog: Program, rid: str = "R3.2") -> None:
+    if rid == "R3.2":
+        rep.rule("R3.2", "_finalize_attempt table: raise-decision -> RAISE; DEFER -> SCHEDULED; ABORT -> ABORTED; else deadline / global cap -> RAISE with that reason; else RETRY")
     fi = prog.func(FINALIZE)
     rep.analysed(FINALIZE)
     paths = engine(prog).paths(fi)
@@ -201,9 +202,9 @@ def check_finalize(rep: Report, prog: Program) -> None:
     rows, unknown = expand(paths, classify, dims, outcome)
     for val, outs in rows:
         construct = fmt_val(val)
-        rep.instance("R3.2", construct, {"inputs": dict(val), "found": [list(map(str, o)) for o in outs]} if len(rep.samples) < 12 else None)
+        rep.instance(rid, construct, {"inputs": dict(val), "found": [list(map(str, o)) for o in outs]} if len(rep.samples) < 12 else None)
         if len(outs) != 1:
-            rep.fail("R3.2", f"_finalize_attempt|nondeterministic|{sorted(map(str, outs))}", f"inputs [{construct}]: {len(outs)} outcomes {list(outs)}; unrecognised conditions {unknown}", where=fi.where(), function=FINALIZE)
+            rep.fail(rid, f"_finalize_attempt|nondeterministic|{sorted(map(str, outs))}", f"inputs [{construct}]: {len(outs)} outcomes {list(outs)}; unrecognised conditions {unknown}", where=fi.where(), function=FINALIZE)
             continue
         (o, ps), = outs.items()
         if val["action"] == "raise":
@@ -221,17 +222,17 @@ def check_finalize(rep: Report, prog: Program) -> None:
             if not exp:
                 exp = [("RETRY", "None", "decision.sleep_s", (), (), True)]
         if o in exp:
-            rep.ok("R3.2")
+            rep.ok(rid)
         else:
             rep.fail(
-                "R3.2",
+                rid,
                 f"_finalize_attempt|{val['action']}|{val['sleep_action']}|dl={val['deadline_passed']}|g={val['global_reached']}|found={o[0]}:{o[1]}",
                 f"inputs [{construct}]: expected one of {exp}, found {o}",
                 where=path_where(prog, FINALIZE, ps[0]),
                 function=FINALIZE,
                 path=ps[0].describe(),
             )
-    rep.floor("R3.2", 32)
+    rep.floor(rid, 32)
 
 
 # ---------------------------------------------------------------------------
@@ -301,6 +302,61 @@ def needs_retry_names(prog: Program) -> dict[str, set[str]]:
     return out
 
 
+def result_verdict(rep: Report, rid: str, prog: Program) -> None:
+    """should_classify_result: the only place where a returned value becomes `success` or `failure`"""
+    fi = prog.func("redress.policy.runner.logic:should_classify_result")
+    rep.analysed(fi.qual)
+    pos = fi.positional_params()
+    POL, RES = ("param", pos[0]), ("param", pos[1])
+    RC = attr(POL, "result_classifier")
+    rows = set()
+    for p in engine(prog).paths(fi):
+        cls_calls = [e for e in p.calls() if e.callback() == "result_classifier"]
+        other = [e for e in p.calls() if e not in cls_calls and not e.is_repo(":_normalize_classification")]
+        none_cfg = any(a == ("cmp", "is", RC, ("const", None)) and pol for a, pol, _ in p.conds)
+        problem = None
+        construct = "|".join(p.describe()[-3:])[:120]
+        rep.instance(rid, "should_classify_result|" + construct)
+        if other:
+            problem = f"unexpected effects {[e.label for e in other]}"
+        elif p.exit[0] != "return" or p.exit[1][0] != "tuple" or len(p.exit[1][1]) != 2:
+            problem = f"does not return a (verdict, classification) pair: {p.exit}"
+        else:
+            verdict, klass = p.exit[1][1]
+            extra = [show(a) for a, pol, _ in p.conds if a != ("cmp", "is", RC, ("const", None)) and not (cls_calls and a == ("cmp", "is", cls_calls[0].result, ("const", None)))]
+            if extra:
+                problem = f"the verdict depends on {extra}: only `no result classifier` and `the classifier answered None` may make a result a success"
+            elif none_cfg:
+                rows.add("no-classifier")
+                if cls_calls or (verdict, klass) != (("const", False), ("const", None)):
+                    problem = "without a result classifier every result is a success: expected (False, None) and no call"
+            elif len(cls_calls) != 1 or cls_calls[0].args != [RES]:
+                problem = f"the result classifier must be asked exactly once about the result itself; found {[[show(a) for a in e.args] for e in cls_calls]}"
+            else:
+                ans = cls_calls[0].result
+                is_none = [pol for a, pol, _ in p.conds if a == ("cmp", "is", ans, ("const", None))]
+                if is_none == [True]:
+                    rows.add("answer-none")
+                    if (verdict, klass) != (("const", False), ("const", None)):
+                        problem = "classifier answered None (success) but the verdict is not (False, None)"
+                elif is_none == [False]:
+                    rows.add("answer-class")
+                    nc = [e for e in p.calls() if e.is_repo(":_normalize_classification")]
+                    if verdict != ("const", True) or len(nc) != 1 or nc[0].args != [ans] or klass != nc[0].result:
+                        problem = f"classifier answered a class but the verdict is ({show(verdict)}, {show(klass)}); expected (True, _normalize_classification(answer))"
+                else:
+                    problem = "the classifier's answer is not tested against None"
+        if problem:
+            rep.fail(rid, f"should_classify_result|{problem[:50]}", f"should_classify_result: {problem}", where=path_where(prog, fi.qual, p), function=fi.qual, path=p.describe())
+        else:
+            rep.ok(rid)
+    rep.instance(rid, "should_classify_result|rows")
+    if rows == {"no-classifier", "answer-none", "answer-class"}:
+        rep.ok(rid)
+    else:
+        rep.fail(rid, "should_classify_result|rows", f"should_classify_result: rows found {sorted(rows)}; expected no-classifier, answer-none, answer-class", where=fi.where(), function=fi.qual)
+
+
 def check_success(rep: Report, prog: Program) -> None:
     rep.rule("R3.3", "from the success edge (result not classified as failure) every path leaves the runner without another operation invocation, sleep, strategy call, budget token or failure handling")
     nr = needs_retry_names(prog)
@@ -342,6 +398,14 @@ def run(rep: Report, prog: Program, tier: str) -> None:
     check_failure_table(rep, prog)
     check_finalize(rep, prog)
     check_success(rep, prog)
+    rep.rule("R3.10", "`the failure class is retryable` is judged on the classifier's verdict for this very failure (no cached or substituted verdict)")
+    from .common import failure_entry
+
+    failure_entry(rep, "R3.10", prog)
+    rep.floor("R3.10", 2)
+    rep.rule("R3.9", "success/failure verdict on a returned value: should_classify_result is (False, None) iff there is no result classifier or it answers None; otherwise (True, normalised answer); the classifier is asked exactly once about the result itself; nothing else influences the verdict")
+    result_verdict(rep, "R3.9", prog)
+    rep.floor("R3.9", 4)
     # the remaining conjuncts of "retry exactly when permitted" are decided by the rules of the
     # properties that own them; they are re-run here under this property's id
     from .c10 import budget_shape
